@@ -233,7 +233,7 @@ theorem wfUFields_new : ∀ (cols : ArrUFields) (fs : UFields) (k : Nat), readab
 end
 
 /-- field form -/
-theorem WF_new (f : Field) (a : Arr) (hr : readableDT f.dataType = true) (h : WF f a = true) :
+theorem WF_new (f : Field) (a : Arr) (hr : readableDT f.dataType = true) (h : WFS f a = true) :
     Read.new Read.Fixes.all a = .ok () := wf_new a _ _ hr h
 
 end SaModel.Lemmas.C03
